@@ -35,7 +35,7 @@ def run_case(prop, ctx, term, fn, shrink=True):
             ctx.fail('no_unexpected_exception', 'library raised %s\n%s' % (core.exc_str(e), txt))
         else:
             ctx.harness_errors.append({'case': term, 'trace': txt})
-    if shrink and ctx.viol_count > before and ctx.violations and getattr(ctx, '_shrunk', 0) < 3 and getattr(prop, 'SHRINK', True):
+    if shrink and ctx.viol_count > before and ctx.violations and getattr(ctx, '_shrunk', 0) < 3 and getattr(prop, 'SHRINK', False):
         v = ctx.violations[-1]
         if v['case'] is term:
             ctx._shrunk = getattr(ctx, '_shrunk', 0) + 1
